@@ -17,7 +17,7 @@ SumTo(s, k) == IF k = 0 THEN 0 ELSE s[k] + SumTo(s, k - 1)
 ResultFails(r, ev) ==
   IF ev.raised THEN {"raised"}
   ELSE CASE ev.kind = "c07" ->
-         (IF Len(ev.planes_ppb) = Len(ev.planes) /\ AllLe(ev.planes_ppb, Tol) THEN {} ELSE {"exit_plane_equals_truncated_run"})
+         (IF Len(ev.planes_ppb) = Len(ev.planes) * ev.ncfg /\ AllLe(ev.planes_ppb, Tol) THEN {} ELSE {"exit_plane_equals_truncated_run"})
     \cup (IF ev.planes[Len(ev.planes)] = Len(ev.slice_fp) - 1 THEN {} ELSE {"last_exit_plane_is_full_run"})
     \cup (IF Len(ev.axis_fp) = Len(ev.planes) /\ \A p \in 1..Len(ev.planes) :
                ev.axis_fp[p] - SumTo(ev.slice_fp, ev.planes[p] + 1) \in -(Tol6 * 8)..(Tol6 * 8) THEN {} ELSE {"thickness_axis_is_cumulative"})
